@@ -47,7 +47,7 @@ func c13KeyIdx(s c13Stmt, id int) int {
 
 var c13Leaves = []c13Stmt{
 	{Kind: "bindf"}, {Kind: "bindm"}, {Kind: "bindf", Arg: "same-key"}, {Kind: "bindm", Arg: "same-key"}, {Kind: "setstr"}, {Kind: "setint"},
-	{Kind: "setkm", Arg: "vi-command"}, {Kind: "setkm", Arg: "vi-insert"},
+	{Kind: "setkm", Arg: "vi-command"}, {Kind: "setkm", Arg: "vi-insert"}, {Kind: "setkm", Arg: "emacs-meta"},
 	{Kind: "comment"}, {Kind: "include", Arg: "f0"},
 }
 
@@ -125,7 +125,7 @@ func c13Print(p []c13Stmt, id *int, sb *strings.Builder, indent string) {
 			fmt.Fprintf(sb, "%s%s: \"m%d\"\n", indent, c13Keys[c13KeyIdx(s, *id)].text, *id)
 		case "setstr":
 			*id++
-			fmt.Fprintf(sb, "%sset var%d val%d\n", indent, *id, *id)
+			fmt.Fprintf(sb, "%sset var%d val%dvx\n", indent, *id, *id) // a value whose first character occurs again
 		case "setint":
 			*id++
 			fmt.Fprintf(sb, "%sset num%d %d\n", indent, *id, *id%10)
@@ -184,7 +184,7 @@ func c13Eval(p []c13Stmt, st c13Setting, active bool, km *string, id *int, out *
 		case "setstr":
 			*id++
 			if active {
-				out.vars[fmt.Sprintf("var%d", *id)] = fmt.Sprintf("string:val%d", *id)
+				out.vars[fmt.Sprintf("var%d", *id)] = fmt.Sprintf("string:val%dvx", *id)
 			}
 		case "setint":
 			*id++
